@@ -263,6 +263,68 @@ def check_allocators(chk):
                    % ([e for e in p.events if e[0] in ('calloc', 'malloc')],), 'wasmTableAllocate:alloc')
 
 
+def check_common_record(chk, tus, rule):
+    """shared with C15 (thread-spawn runs on child instances and spawns from them): every member of the runtime's
+    wasmModuleInstance record (`common`) is set in Instantiate and copied from the parent in NewChild - the member list is read
+    from w2c2_base.h, not frozen here"""
+    from .. import runtime
+    htu = runtime.header('le')
+    fields, tag = None, None
+    for r in htu.records_named('wasmModuleInstance') if hasattr(htu, 'records_named') else []:
+        fields = r
+    if fields is None:
+        itp = pe.Interp([htu], {})
+        itp.cur_tu = htu
+        fields, tag = itp.record_fields('struct wasmModuleInstance')
+    chk.require(fields and len(fields) >= 3, 'struct wasmModuleInstance not found in w2c2_base.h')
+    names = [f for f, _t in fields]
+    it = make(tus)
+    mk = shape(it, mem='defined', table='defined', nglobals=0, gimports=0, data=(), elems=1, start=False)
+    fns = split_functions(normalize_emitted(inits_text(it, mk)))
+    for entry, recv in (('modInstantiate', 'i'), ('modNewChild', 'child')):
+        chk.require(entry in fns, '%s not emitted' % entry)
+        body = fns[entry]
+        for fld in names:
+            asg = re.findall(r'\b%s->common\.%s\s*=\s*([^;]+);' % (recv, re.escape(fld)), body)
+            if entry == 'modNewChild':
+                ok = len(asg) >= 1 and re.fullmatch(r'self->common\.%s' % re.escape(fld), asg[-1].strip()) is not None
+                why = 'copied from the parent (self->common.%s)' % fld
+            else:
+                ok = len(asg) >= 1
+                why = 'set'
+            chk.expect(ok, rule, '%s:common.%s' % (entry, fld),
+                       '%s leaves %s->common.%s %s (assignments: %r); the member must be %s - the embedder and thread-spawn call through it '
+                       'on the new instance (a child without newChild cannot spawn a thread itself)'
+                       % (entry, recv, fld, 'unset' if not asg else 'wrong', asg, why),
+                       'wasmCWrite%sFunction:common-%s' % ('Instantiate' if entry == 'modInstantiate' else 'NewChild', fld))
+    return len(names)
+
+
+def shared_inheritance(chk, f3, rule):
+    ok = re.search(r'if\s*\(parent\s*==\s*NULL\)\s*\{\s*i->m0\s*=\s*WASM_MEMORY_ALLOCATE_SHARED\(1,\s*4\)\s*;\s*\}\s*else\s*\{\s*i->m0\s*=\s*parent->m0\s*;\s*\}', f3)
+    chk.expect(ok is not None, rule, 'shared-memory-inherited',
+               'a shared memory is initialised by %r; expected allocation for the root instance and the parent\'s descriptor itself (i->m0 = '
+               'parent->m0) for children: all threads must grow one page counter under one mutex' % f3.strip(),
+               'wasmCWriteInitMemories:shared')
+
+
+def check_shared_descriptor(chk, tus, rule):
+    """shared with C18: instances created for threads (NewChild -> InitMemories(child, parent)) alias the parent's descriptor of a
+    module-defined shared memory"""
+    it = make(tus)
+    mk3 = shape(it, mem='defined', table='none', nglobals=0, gimports=0, data=(), elems=0, start=False, shared=True)
+    fns = split_functions(inits_text(it, mk3))
+    chk.require('modInitMemories' in fns and 'modNewChild' in fns, 'InitMemories/NewChild not emitted for a shared memory')
+    shared_inheritance(chk, fns['modInitMemories'], rule)
+    got = re.findall(r'\bmodInitMemories\s*\(\s*(\w+)\s*,\s*(\w+)\s*\)', fns['modNewChild'])
+    chk.expect(got == [('child', 'self')], rule, 'newchild-passes-parent',
+               'NewChild initialises the memories with %r; expected InitMemories(child, self) so that the child inherits from its creator' % (got,),
+               'wasmCWriteNewChildFunction:memories')
+    got_i = re.findall(r'\bmodInitMemories\s*\(\s*(\w+)\s*,\s*([\w()* ]+?)\s*\)', fns.get('modInstantiate', ''))
+    chk.expect(len(got_i) == 1 and got_i[0][0] == 'i' and re.sub(r'[\s()]|void\*', '', got_i[0][1]) in ('NULL', '0'), rule, 'instantiate-has-no-parent',
+               'Instantiate initialises the memories with %r; expected InitMemories(i, NULL)' % (got_i,), 'wasmCWriteInstantiateFunction:memories')
+
+
 def check_shapes(chk, it):
     shapes = []
     for mem in ('defined', 'imported', 'none'):
@@ -407,10 +469,7 @@ def check_members_and_imports(chk, it):
             chk.expect(ok, 'R06.4', 'memory-per-instance', 'a non-shared memory is initialised by %r; expected a fresh allocation per instance' % f3.strip(),
                        'wasmCWriteInitMemories:allocation')
         else:
-            ok = re.search(r'if\s*\(parent\s*==\s*NULL\)\s*\{\s*i->m0\s*=\s*WASM_MEMORY_ALLOCATE_SHARED\(1,\s*4\)\s*;\s*\}\s*else\s*\{\s*i->m0\s*=\s*parent->m0\s*;', f3)
-            chk.expect(ok is not None, 'R06.4', 'shared-memory-inherited',
-                       'a shared memory is initialised by %r; expected allocation for the root instance and the parent\'s memory for children' % f3.strip(),
-                       'wasmCWriteInitMemories:shared')
+            shared_inheritance(chk, f3, 'R06.4')
     # exports
     ex = fns.get('mod_run', None)
     chk.expect(ex is not None and re.fullmatch(r'\s*return\s+f2\(i,\s*l0,\s*l1\)\s*;\s*', ex) is not None, 'R06.6', 'export-wrapper',
@@ -556,6 +615,7 @@ def run(chk):
     it = make(tus)
     n = check_shapes(chk, it)
     check_allocators(chk)
+    check_common_record(chk, tus, 'R06.4')
     chk.floor('R06.7', 12)
     chk.explanation = chk.explanation.replace('on 0 concrete', 'on %d concrete' % n)
     check_data_arrays(chk, it)
